@@ -110,22 +110,13 @@ func blockEndMatcher(delims []string, name string) *regexp.Regexp {
 }
 
 func formTokenMatcher(delims []string) *regexp.Regexp {
-	// On ending a tag we need to exclude anything that appears to be ending a tag that's nested
-	// inside the tag. We form the exclusion expression here.
-	// For example, if delims is default the exclusion expression is "[^%]|%[^}]".
-	// If tagRight is "TAG!RIGHT" then expression is
-	// [^T]|T[^A]|TA[^G]|TAG[^!]|TAG![^R]|TAG!R[^I]|TAG!RI[^G]|TAG!RIG[^H]|TAG!RIGH[^T]
-	exclusion := make([]string, 0, len(delims[3]))
-	for idx, val := range delims[3] {
-		// quote both parts: delimiter characters may be special in a regexp or in a character class
-		exclusion = append(exclusion, regexp.QuoteMeta(delims[3][0:idx])+"[^"+regexp.QuoteMeta(string(val))+"]")
-	}
-
+	// A tag's arguments run, as an object's expression does, to the first closing delimiter;
+	// a tag without arguments ends at once (the group is tried last).
 	tokenMatcher := regexp.MustCompile(
-		fmt.Sprintf(`%s-?\s*((?s:.+?))\s*-?%s|%s-?\s*(\w+)(?:\s+((?:%v)+?))?\s*-?%s`,
+		fmt.Sprintf(`%s-?\s*((?s:.+?))\s*-?%s|%s-?\s*(\w+)(?:\s+((?s:.+?)))??\s*-?%s`,
 			// QuoteMeta will escape any of these that are regex commands
 			regexp.QuoteMeta(delims[0]), regexp.QuoteMeta(delims[1]),
-			regexp.QuoteMeta(delims[2]), strings.Join(exclusion, "|"), regexp.QuoteMeta(delims[3]),
+			regexp.QuoteMeta(delims[2]), regexp.QuoteMeta(delims[3]),
 		),
 	)
 
